@@ -375,3 +375,115 @@ def split_runs(path):
         if runs:
             runs[-1].append(e)
     return runs
+
+
+# ------------------------------------------------------------------------------------------------
+# helpers shared by the per-property checks
+
+def write_cfg(name, text):
+    """Writes spec/<name>_gen.cfg (git-ignored) and returns the cfg name."""
+    n = name + "_gen"
+    with open(os.path.join(SPEC, n + ".cfg"), "w") as f:
+        f.write(text)
+    return n
+
+
+def cfg_text(consts, invariants=(), properties=(), view=None, edge=None, constraint=None, spec="Spec", symmetry=None):
+    t = "SPECIFICATION %s\n" % spec
+    if consts:
+        t += "CONSTANTS\n" + "".join(" %s = %s\n" % (k, _tla(v)) for k, v in consts.items())
+    for i in invariants:
+        t += "INVARIANT %s\n" % i
+    for p in properties:
+        t += "PROPERTY %s\n" % p
+    if view:
+        t += "VIEW %s\n" % view
+    if edge:
+        t += "ACTION_CONSTRAINT %s\n" % edge
+    if constraint:
+        t += "CONSTRAINT %s\n" % constraint
+    t += "CHECK_DEADLOCK FALSE\n"
+    return t
+
+
+def _tla(v):
+    if isinstance(v, bool):
+        return "TRUE" if v else "FALSE"
+    return str(v)
+
+
+def chunked_replay(exe, world_args, scheds, base, nchunks=8):
+    """Writes the schedules in nchunks files, replays each with the harness; returns the trace files."""
+    from vlib import tour
+    files = []
+    for c in range(nchunks):
+        part = scheds[c::nchunks]
+        if not part:
+            continue
+        pf = os.path.join(OUT, "sched", "%s.%d.sched" % (base, c))
+        tour.write_schedules(part, pf)
+        tf = os.path.join(OUT, "traces", "%s.%d.ndjson" % (base, c))
+        run_harness(exe, world_args + ["--sched", pf, "--out", tf])
+        files.append(tf)
+    return files
+
+
+def run_events(path, run):
+    for r in split_runs(path):
+        if r and r[0].get("run") == run:
+            return r
+    return []
+
+
+def report_viols(vd, prop, res, ctx, pm_of, what_of=None, per_class=3):
+    """Turns monitor violations into VIOLATION / KNOWN-FINDING decisions; writes a replay file for the first
+    per_class occurrences of each (rule, discriminating-parameters) class."""
+    seen = {}
+    cache = {}
+    for v in res["viol"]:
+        pm = pm_of(v)
+        k = (v["rule"], json.dumps(pm, sort_keys=True))
+        seen[k] = seen.get(k, 0) + 1
+        what = what_of(v) if what_of else "params=%s" % (v["p"],)
+        if seen[k] > per_class:
+            vd.report({"rule": v["rule"], "pm": pm, "what": what}, "see-first-occurrence")
+            continue
+        if v["file"] not in cache:
+            cache[v["file"]] = {r[0].get("run"): r for r in split_runs(v["file"]) if r}
+        events = cache[v["file"]].get(v["run"], [])
+        rp = write_replay(prop, "%s-run%s-%s" % (os.path.basename(v["file"]), v["run"], v["rule"]),
+                          {"property": prop, "trace_file": v["file"], "run": v["run"], "rule": v["rule"],
+                           "line": v["line"], "params": v["p"], "ctx": ctx, "events": events[:400]})
+        vd.report({"rule": v["rule"], "pm": pm, "what": what}, rp)
+
+
+def canary_check(vd, trace_module, src_trace, mutate, expect_rule, name, max_runs=60):
+    """Copies the first runs of a recorded trace with one field corrupted by `mutate(event) -> bool` (True when
+    it corrupted this event); the monitor must report `expect_rule`, otherwise the check is a tool failure."""
+    import copy
+    runs = split_runs(src_trace)
+    out = os.path.join(OUT, "traces", name + ".canary.ndjson")
+    done = False
+    with open(out, "w") as f:
+        for r in runs[:max_runs]:
+            for e in r:
+                if not done:
+                    e2 = copy.deepcopy(e)
+                    if mutate(e2):
+                        e = e2
+                        done = True
+                f.write(json.dumps(e) + "\n")
+    if not done:
+        raise ToolError("canary %s: no suitable event found in %s" % (name, src_trace))
+    res = validate_traces(trace_module, [out], parallel=1)
+    rules = sorted({v["rule"] for v in res["viol"]})
+    vd.cov["canary"][name] = {"expected": expect_rule, "rules_reported": rules}
+    if expect_rule not in rules:
+        raise ToolError("canary %s not detected by %s (got %s)" % (name, trace_module, rules))
+
+
+class FakeTlc:
+    distinct = 1
+    generated = 1
+    wall = 0.0
+    coverage = {}
